@@ -25,6 +25,18 @@ class FCtx(object):
         self.ex = T.extract(fref.node, inliner=self._make_inliner(model, fref))
         self.events = self.ex.events
         self.inlined = list(self.ex.inlined)
+        # spelling-independent forms (string building, sort keys) for every term the rules look at
+        # Event.raw/raw_target/raw_guards keep the gated (path-sensitive) merges of if statements for T.select(); the default
+        # view has them flattened to phi
+        for ev in self.events:
+            ev.raw = T.canon(ev.value) if ev.value is not None else None
+            ev.raw_target = T.canon(ev.target) if ev.target is not None else None
+            ev.raw_guards = tuple((T.canon(g[0]), g[1]) for g in ev.guards)
+            ev.value = T.degate(ev.raw) if ev.raw is not None else None
+            ev.target = T.degate(ev.raw_target) if ev.raw_target is not None else None
+            ev.guards = tuple((T.degate(g[0]), g[1]) for g in ev.raw_guards)
+            ev.loops = tuple((l[0], T.degate(T.canon(l[1]))) for l in ev.loops)
+        self.ex.loop_guards = dict((k, tuple((T.degate(T.canon(g[0])), g[1]) for g in v)) for k, v in self.ex.loop_guards.items())
         for ev in self.events:
             if ev.kind == "unsupported":
                 raise AnalysisError("unsupported statement %s in %s (line %s)" % (ev.value[1], fref.qname, ev.lineno))
@@ -930,3 +942,203 @@ def own_guards(cx, ev):
         if not early:
             out.append(g)
     return out
+
+
+# ---- "search a collection, raise when nothing matches" in any of its spellings ---------------------------------------------
+class Search(object):
+    """``raise_ev`` is raised exactly when no element ``elem`` of ``coll`` satisfies ``test`` (a term over ``elem``)"""
+    def __init__(self, coll, elem, test, raise_ev, form, found_ev=None):
+        self.coll, self.elem, self.test, self.raise_ev, self.form, self.found_ev = coll, elem, test, raise_ev, form, found_ev
+
+    def __repr__(self):
+        return "<Search %s over %s: %s>" % (self.form, T.show(self.coll), T.show(self.test))
+
+
+def _rel_guards(cx, ev, lid):
+    """guards of an event inside loop ``lid`` relative to the loop statement (None if they do not extend the loop's guards)"""
+    base = tuple(cx.ex.loop_guards.get(lid, ()))
+    gs = tuple(g for g in ev.guards)
+    if gs[:len(base)] != base:
+        return None
+    return gs[len(base):]
+
+
+def searches(cx):
+    """recognise: (a) flag + break + ``if not flag: raise``; (b) ``return`` inside the loop + ``raise`` after it; (c) for/else
+    (desugared to (a) by the extractor); (d) ``if not any(<test> for x in coll): raise``.  Only loops at the outermost
+    level of the function are considered."""
+    out = []
+    raises = [ev for ev in cx.events if ev.kind == "raise" and not ev.loops]
+    loops = {}
+    for ev in cx.events:
+        if len(ev.loops) == 1:
+            loops.setdefault(ev.loops[0][0], ev.loops[0][1])
+    for r in raises:
+        own = own_guards(cx, r)
+        # (d) any(...)
+        if own:
+            t, pol = T.strip_not(own[-1][0], own[-1][1])
+            if not pol and t[0] == "call" and t[1] == ("global", "any") and len(t[2]) == 1 and t[2][0][0] == "comp" \
+                    and len(t[2][0][3]) == 1 and not t[2][0][3][0][2] and len(t[2][0][3][0][0]) == 2 and len(own) == 1:
+                comp = t[2][0]
+                name = comp[3][0][0][1]
+                elem = ("elem", comp[3][0][1], "any")
+                test = T.subst(comp[2], lambda x: elem if x == ("bound", name) else None)
+                out.append(Search(comp[3][0][1], elem, test, r, "any"))
+                continue
+        for lid, coll in loops.items():
+            base = tuple(cx.ex.loop_guards.get(lid, ()))
+            in_loop = [ev for ev in cx.events if ev.loops and ev.loops[0][0] == lid]
+            if not in_loop or in_loop[-1].seq > r.seq:
+                continue
+            elem = ("elem", coll, lid)
+            # (b) return in the loop, raise after it under the same guards as the loop
+            rets = [ev for ev in in_loop if ev.kind == "return" and len(ev.loops) == 1]
+            if rets and canon_guards(own) == canon_guards(own_guards(cx, _FakeEv(base, r.seq))):
+                if len(rets) == 1:
+                    rel = _rel_guards(cx, rets[0], lid)
+                    if rel is not None and len(rel) == 1 and rel[0][1] is True:
+                        out.append(Search(coll, elem, rel[0][0], r, "return", rets[0]))
+                        continue
+                else:
+                    # several returns: found when any of their conditions holds
+                    tests = []
+                    for rt in rets:
+                        rel = _rel_guards(cx, rt, lid)
+                        if rel is None or not rel:
+                            tests = None
+                            break
+                        conds = tuple(t if pol else ("unary", "not", t) for t, pol in rel)
+                        tests.append(conds[0] if len(conds) == 1 else ("boolop", "and", conds))
+                    if tests:
+                        out.append(Search(coll, elem, ("boolop", "or", tuple(tests)), r, "return", rets[0]))
+                        continue
+            # (a)/(c) flag set in the loop (with or without break), raise guarded by the flag
+            if own:
+                t, pol = T.strip_not(own[-1][0], own[-1][1])
+                if t[0] == "phi" and all(a in (("const", True), ("const", False)) or a[0] == "carried" for a in t[1]) \
+                        and canon_guards(own[:-1]) == canon_guards(own_guards(cx, _FakeEv(base, r.seq))):
+                    sets = [ev for ev in in_loop if ev.kind == "bind" and ev.value in (("const", True), ("const", False))
+                            and len(ev.loops) == 1]
+                    # the value that lets the raise happen is the flag's initial ("nothing found yet") value
+                    sets = [ev for ev in sets if ev.value == ("const", not pol)]
+                    if len(sets) == 1 and ("const", pol) in t[1]:
+                        rel = _rel_guards(cx, sets[0], lid)
+                        if rel is not None and len(rel) == 1 and rel[0][1] is True:
+                            out.append(Search(coll, elem, rel[0][0], r, "flag", sets[0]))
+                            continue
+    return out
+
+
+class _FakeEv(object):
+    def __init__(self, guards, seq):
+        self.guards, self.seq = tuple(guards), seq
+
+
+def bool_reduce(t, assign):
+    """evaluate a truth-valued term under a partial assignment of atoms (dict term -> bool); returns True / False / a residual
+    term.  and/or/not/ifexp are interpreted, everything else is an atom."""
+    if t in assign:
+        return assign[t]
+    k = t[0]
+    if k == "const":
+        return bool(t[1])
+    if k == "unary" and t[1] == "not":
+        v = bool_reduce(t[2], assign)
+        return (not v) if isinstance(v, bool) else ("unary", "not", v)
+    if k == "boolop":
+        rest = []
+        for x in t[2]:
+            v = bool_reduce(x, assign)
+            if isinstance(v, bool):
+                if t[1] == "and" and not v:
+                    return False
+                if t[1] == "or" and v:
+                    return True
+                continue
+            if v not in rest:
+                rest.append(v)
+        if not rest:
+            return t[1] == "and"
+        return rest[0] if len(rest) == 1 else ("boolop", t[1], tuple(rest))
+    if k == "ifexp":
+        c = bool_reduce(t[1], assign)
+        if isinstance(c, bool):
+            return bool_reduce(t[2] if c else t[3], assign)
+        return ("ifexp", c, bool_reduce(t[2], assign), bool_reduce(t[3], assign))
+    return t
+
+
+# ---- a collection built from loops, whatever the spelling ------------------------------------------------------------------
+class Collect(object):
+    """{ elt : for el_1 in it_1 for el_2 in it_2 ... if conds }  -- from a comprehension or from a local container filled by
+    .add/.append in (nested) loops.  ``els`` are the element terms the rule can use to state what ``elt`` must be."""
+    def __init__(self, kind, elt, gens, conds, ev=None):
+        self.kind, self.elt, self.gens, self.conds, self.ev = kind, elt, gens, conds, ev
+
+    @property
+    def els(self):
+        return [g[0] for g in self.gens]
+
+    @property
+    def its(self):
+        return [g[1] for g in self.gens]
+
+    def __repr__(self):
+        return "<Collect %s %s %s if %s>" % (self.kind, T.show(self.elt), [(T.show(a), T.show(b)) for a, b in self.gens],
+                                           [T.show(c) for c in self.conds])
+
+
+def collections_of(cx, term):
+    """every way ``term`` is filled, as Collect objects; [] when the term is not a recognisable collection.  A container that is
+    also cut short (break/return inside the filling loop) is reported with a ('cut',) condition."""
+    out = []
+    u = T.unwrap(term)
+    # set(<comp>) / list(<comp>) / sorted(<comp>)
+    while u[0] == "call" and u[1] in (("global", "set"), ("global", "list"), ("global", "sorted"), ("global", "frozenset"),
+                                      ("global", "tuple")) and len(u[2]) == 1 and not u[3]:
+        u = T.unwrap(u[2][0])
+    if u[0] == "comp":
+        gens = [(("bound", g[0][1]), g[1]) for g in u[3]]
+        conds = [c for g in u[3] for c in g[2]]
+        out.append(Collect(u[1], u[2], gens, conds))
+    if term[0] == "local":
+        for ev in cx.events:
+            if ev.kind == "call" and ev.value[1][0] == "attr" and ev.value[1][2] in ("add", "append") \
+                    and ev.value[1][1][0] == "local" and T.same_local(ev.value[1][1], term) and len(ev.value[2]) == 1:
+                gens = [(("elem", l[1], l[0]), l[1]) for l in ev.loops]
+                conds = [g[0] if g[1] else ("unary", "not", g[0]) for g in own_guards(cx, ev)]
+                lids = set(l[0] for l in ev.loops)
+                if [e for e in cx.events if e.kind in ("break", "return") and set(l[0] for l in e.loops) & lids]:
+                    conds.append(("unknown", "cut"))
+                out.append(Collect(ev.value[1][2], ev.value[2][0], gens, conds, ev))
+    return out
+
+
+def value_under(cx, decide):
+    """the values the function can return on the paths described by ``decide`` (see T.truth): return statements whose guards
+    contradict the scenario are dropped, gates and conditional expressions with a decided test are resolved"""
+    out = []
+    for ev in cx.events:
+        if ev.kind != "return":
+            continue
+        if any(T.truth(g[0], decide) is (not g[1]) for g in ev.raw_guards):
+            continue
+        v = T.select(ev.raw, decide)
+        if v not in out:
+            out.append(v)
+    return out
+
+
+def atoms_decider(table, default=None):
+    """decide() for T.truth / T.select from a table {atom term: bool}; structural terms (not/and/or/conditionals) are left to be
+    interpreted; other atoms get ``default``"""
+    def decide(t):
+        if t in table:
+            return table[t]
+        if t[0] in ("unary", "boolop", "ifexp", "gate", "const"):
+            return None
+        if t[0] == "cmp" and len(t[1]) == 1 and t[1][0] in ("is not", "!=", "not in"):
+            return None
+        return default
+    return decide
